@@ -165,7 +165,7 @@ PROPS = {
     },
     "C16": {
         "modules": ["SxVerif.Props.C16"],
-        "components": ["exitdelay", "e2edelay", "recv"],
+        "components": ["exitdelay", "e2edelay", "recv", "pipeline"],
         "trusted_base": [
             "modelled, not verified: time as a logical clock (`tick`), `time.After(d)` as a timer whose receive is enabled once clock >= creation time + d; Go channel / select / context semantics as in Model/Engine.lean (see C08)",
             "the packet receiver is abstracted to an external producer that reads the next arrived frame only while the derived ctx is live and then calls Put (receiver loop polls ctx at the loop head; C03/C06/C20 own the frame side)",
@@ -303,7 +303,7 @@ PROPS = {
     },
     "C11": {
         "modules": ["SxVerif.Props.C11"],
-        "components": ["arpcache", "proc"],
+        "components": ["arpcache", "proc", "gen", "e2earp"],
         "trusted_base": [
             "modelled, not verified: net.IP.String / HardwareAddr.String for 4/6-byte values, net.ParseIP for colon-free text and the ::ffff:a.b.c.d spelling (go1.23 parseIPv4Fields), net.ParseMAC (all three textual forms), bufio.Scanner line splitting (lines below 64 KiB), easyjson's jlexer for arp.ScanResult as the RFC 8259 reader of Spec/Json plus the decoder loop (string-typed ip/mac/vendor, null skipped, unknown keys skipped, repeated key overwrites) — Model/ArpCache.lean; validated on every run through the real ARP processor, encoder, FillCache and cache request generator",
             "other IPv6 text in a cache file and 8/20-byte MACs are outside the model (never printed by the ARP scan); jlexer's leniency on malformed JSON (e.g. trailing commas) is not modelled: the harness's malformed lines are non-objects and truncated objects",
